@@ -45,14 +45,14 @@ type c11Case struct {
 const c11EnumOps = 13
 
 var (
-	c11Shapes = []string{"single", "alternative", "body+attachment", "body+embed", "attachment-only", "two-preformatted-headers", "smime-single", "smime+attachment", "two-attachments-only", "body-writer+file-writer (switchable source fault)"}
+	c11Shapes = []string{"single", "alternative", "body+attachment", "body+embed", "attachment-only", "two-preformatted-headers", "smime-single", "smime+attachment", "two-attachments-only", "body-writer+file-writer (switchable source fault)", "caller-fixed boundary: alternative+attachment (nested multiparts)", "caller-fixed boundary: S/MIME alternative+attachment"}
 	c11Srcs   = []string{"reader", "readseeker", "file", "fs.FS", "text-template", "reader(*bytes.Reader, partially consumed)", "reader(*strings.Reader)", "readseeker(partially consumed)", "reader(*os.File)"}
 	c11Ops    = []string{"WriteTo", "Write", "NewReader", "UpdateReader", "WriteToFile", "WriteToTempFile", "Send", "WriteTo(sink fails at 0)", "WriteTo(sink fails mid-way)",
 		"WriteTo(while the content source fails)", "NewReader(while the content source fails)", "UpdateReader(while the content source fails)", "Send(while the content source fails)", "WriteTo(sink fails at byte K)"}
 )
 
 func c11HasFile(shape int) bool {
-	return shape == 2 || shape == 3 || shape == 4 || shape == 7 || shape == 8
+	return shape == 2 || shape == 3 || shape == 4 || shape == 7 || shape == 8 || shape == 10 || shape == 11
 }
 func c11MapMatters(shape int) bool {
 	return shape == 4 || shape == 5 || shape == 6 || shape == 7
@@ -89,8 +89,11 @@ func c11Build(cfg c11Cfg, dir string) (*mail.Msg, error) {
 	if shape != 4 && shape != 8 && shape != 9 {
 		m.SetBodyString(mail.TypeTextPlain, "plain body\r\nwith = and .dot\r\n")
 	}
-	if shape == 1 {
+	if shape == 1 || shape == 10 || shape == 11 {
 		m.AddAlternativeString(mail.TypeTextHTML, "<p>html</p>\r\n")
+	}
+	if shape == 10 || shape == 11 {
+		m.SetBoundary("caller-fixed-boundary-0001")
 	}
 	if shape == 9 {
 		flt := &c11Fault{}
@@ -212,7 +215,7 @@ func c11Build(cfg c11Cfg, dir string) (*mail.Msg, error) {
 			}
 		}
 	}
-	if shape == 6 || shape == 7 {
+	if shape == 6 || shape == 7 || shape == 11 {
 		kp := hx.Mat().SignECDSA
 		note(m.SignWithKeypair(kp.PrivateKey, kp.Leaf, nil))
 	}
@@ -247,7 +250,7 @@ func c11Exec(r *vf.Run, k c11Case, dir string) []finding {
 		r.HarnessError("C11 build %+v: %v", k.Cfg, err)
 		return nil
 	}
-	smime := k.Cfg.Shape == 6 || k.Cfg.Shape == 7
+	smime := k.Cfg.Shape == 6 || k.Cfg.Shape == 7 || k.Cfg.Shape == 11
 	var ref []byte
 	refOp := ""
 	var rd *mail.Reader
@@ -334,6 +337,8 @@ func c11Exec(r *vf.Run, k c11Case, dir string) []finding {
 					got, operr = io.ReadAll(rd)
 				case 4:
 					p := filepath.Join(dir, fmt.Sprintf("out-%d.eml", step))
+					// the target exists already and is longer than the message (documented: it is overwritten)
+					_ = os.WriteFile(p, bytes.Repeat([]byte("X-Old: content of the file that existed before\r\n"), 400), 0o644)
 					operr = m.WriteToFile(p)
 					if operr == nil {
 						got, operr = os.ReadFile(p)
@@ -418,7 +423,7 @@ func init() {
 	vf.Register(&vf.Check{
 		ID: "C11", Title: "rendering is repeatable and all output paths agree",
 		Run: func(r *vf.Run) {
-			r.SetRule("message shapes {single, alternative, body+attachment, body+embed, attachment-only, two attachments only, three preformatted headers, S/MIME single, S/MIME+attachment} × file source {io.Reader (buffer, *bytes.Reader partially consumed, *strings.Reader, *os.File), read-seeker (fresh and partially consumed), file, fs.FS, text template} × file encoding {base64, 8bit, QP} × ALL sequences of length 2..L over the 9 render operations {WriteTo, Write, NewReader, UpdateReader, WriteToFile, WriteToTempFile, Send (server commit log), WriteTo into a sink failing at 0, … failing mid-way, and WriteTo / NewReader / UpdateReader / Send while the content source (body or file writer function) fails} × map-iteration start 0..7 per operation (<=1 operation deviating from start 0; thorough <=2) through the runtime seam; Date, Message-ID and boundaries are generated by go-mail on first use; plus a failure-offset sweep per configuration: [WriteTo, WriteTo into a sink that starts failing at byte K, WriteTo, WriteTo] for EVERY K of the output × {short write, rejected write}; every successful output must equal the first; distinct by (configuration, operation sequence, map starts)")
+			r.SetRule("message shapes {single, alternative, body+attachment, body+embed, attachment-only, two attachments only, three preformatted headers, S/MIME single, S/MIME+attachment, nested multiparts with a caller-fixed boundary (plain and S/MIME)} × file source {io.Reader (buffer, *bytes.Reader partially consumed, *strings.Reader, *os.File), read-seeker (fresh and partially consumed), file, fs.FS, text template} × file encoding {base64, 8bit, QP} × ALL sequences of length 2..L over the 9 render operations {WriteTo, Write, NewReader, UpdateReader, WriteToFile, WriteToTempFile, Send (server commit log), WriteTo into a sink failing at 0, … failing mid-way, and WriteTo / NewReader / UpdateReader / Send while the content source (body or file writer function) fails} × map-iteration start 0..7 per operation (<=1 operation deviating from start 0; thorough <=2) through the runtime seam; Date, Message-ID and boundaries are generated by go-mail on first use; plus a failure-offset sweep per configuration: [WriteTo, WriteTo into a sink that starts failing at byte K, WriteTo, WriteTo] for EVERY K of the output × {short write, rejected write}; every successful output must equal the first; distinct by (configuration, operation sequence, map starts)")
 			r.Assume("map iteration order is owned through a runtime build-overlay seam (start offset 0..7 for maps of <= 8 entries)", "for S/MIME the per-render outer boundary and signature value are excluded: the signed entity and the remaining top-level fields are compared",
 				"Send output compares modulo the transport's final CRLF", "8bit file content with bare LF/CR compares modulo line-break canonicalisation across the Send path (the dot-writer canonicalises it; such content is illegal on the wire)")
 			if !mapseam.Enabled {
@@ -448,7 +453,7 @@ func init() {
 			idx := 0
 			for _, cfg := range cfgs {
 				for L := 2; L <= maxLen; L++ {
-					if L == maxLen && L > 3 && (cfg.Shape == 6 || cfg.Shape == 7) {
+					if L == maxLen && L > 3 && (cfg.Shape == 6 || cfg.Shape == 7 || cfg.Shape == 11) {
 						continue // signing is the expensive step; signed shapes stop one level earlier
 					}
 					n := 1
@@ -568,7 +573,7 @@ func init() {
 					_ = pw
 				}
 				step := 1
-				if (cfg.Shape == 6 || cfg.Shape == 7) && !r.Thorough {
+				if (cfg.Shape == 6 || cfg.Shape == 7 || cfg.Shape == 11) && !r.Thorough {
 					step = 7 // signing is the expensive step
 				}
 				for at := 0; at < b0.Len(); at += step {
